@@ -347,8 +347,23 @@ def export_folder_case(case):
 
 
 def case_fn(case):
-    if case["kind"] == "export" and case.get("folder"):
-        return export_folder_case(case)
+    if case["kind"] == "export":
+        fn = export_folder_case if case.get("folder") else export_case
+        try:
+            return fn(case)
+        except BaseException as e:
+            if isinstance(e, (KeyboardInterrupt, SystemExit, MemoryError)):
+                raise
+            # storing, loading, exporting and computing the features of
+            # what was loaded are all library calls on valid input
+            import traceback
+            tb = traceback.extract_tb(e.__traceback__)
+            where = next((f"{os.path.basename(f.filename)}:{f.name}"
+                          for f in reversed(tb) if "/nanite/" in f.filename),
+                         "?")
+            return [V(PROP, "export-raises", site="export_training_set",
+                      witness=type(e).__name__, detail=f"{e!r} in {where}",
+                      case=case, kind="export")], ("export", 0)
     return {"matrix": matrix_case, "weights": weights_case,
             "export": export_case}[case["kind"]](case)
 
